@@ -394,7 +394,9 @@ func bigImport() string {
 		if err != nil {
 			return "big export: " + err.Error()
 		}
-		t2 := iavl.NewMutableTree(vstore.New(), 0, false, iavl.NewNopLogger())
+		stNew := vstore.New()
+		t2 := iavl.NewMutableTree(stNew, 0, false, iavl.NewNopLogger())
+		storeOfTree[t2] = stNew
 		imp, err := t2.Import(v)
 		if err != nil {
 			return "big import: " + err.Error()
@@ -414,10 +416,75 @@ func bigImport() string {
 		if !bytes.Equal(t2.Hash(), h) {
 			return fmt.Sprintf("big import (compress=%v, %d nodes): hash %x, original %x", compress, len(nodes), t2.Hash(), h)
 		}
+		// the root hash only vouches for the root record: the complete tree must be there, also for a fresh instance
+		st2 := storeOfTree[t2]
 		_ = t2.Close()
+		t3 := iavl.NewMutableTree(st2, 0, false, iavl.NewNopLogger())
+		if lv, err := t3.Load(); err != nil || lv != v {
+			return fmt.Sprintf("big import (compress=%v): a fresh instance loads version %d, %v", compress, lv, err)
+		}
+		it3, err := t3.GetImmutable(v)
+		if err != nil {
+			return fmt.Sprintf("big import (compress=%v): GetImmutable: %v", compress, err)
+		}
+		e3, err := it3.Export()
+		if err != nil {
+			return fmt.Sprintf("big import (compress=%v): re-export: %v", compress, err)
+		}
+		back, err := drainExport(e3, false)
+		e3.Close()
+		// reference stream: an uncompressed export of the source tree taken now (the importer may modify the
+		// nodes it was given)
+		itS, _ := t.GetImmutable(v)
+		eS, _ := itS.Export()
+		src, errS := drainExport(eS, false)
+		eS.Close()
+		if errS != nil {
+			return "big export: " + errS.Error()
+		}
+		if err != nil || len(back) != len(src) {
+			return fmt.Sprintf("big import (compress=%v): re-export delivers %d of %d nodes (%v)", compress, len(back), len(src), err)
+		}
+		for i := range back {
+			a, b := back[i], src[i]
+			if !bytes.Equal(a.Key, b.Key) || !bytes.Equal(a.Value, b.Value) || a.Height != b.Height || a.Version != b.Version {
+				return fmt.Sprintf("big import (compress=%v): node %d of the re-exported stream differs from the imported one", compress, i)
+			}
+		}
+		n := 0
+		if _, err := t3.Iterate(func(k, val []byte) bool {
+			want, _ := t.Get(k)
+			if !bytes.Equal(want, val) {
+				n = -1 << 30
+			}
+			n++
+			return false
+		}); err != nil || n != 6000 {
+			return fmt.Sprintf("big import (compress=%v): iteration of the imported tree yields %d correct pairs of 6000 (%v)", compress, n, err)
+		}
+		// same future: one more write and commit on both trees
+		if !compress {
+			continue
+		}
+		for _, tr := range []*iavl.MutableTree{t, t3} {
+			if _, err := tr.Set([]byte("key-00007"), []byte("again")); err != nil {
+				return "big import: continuation Set: " + err.Error()
+			}
+			if _, _, err := tr.Remove([]byte("key-05999")); err != nil {
+				return "big import: continuation Remove: " + err.Error()
+			}
+		}
+		h1, v1, err1 := t.SaveVersion()
+		h2, v2, err2 := t3.SaveVersion()
+		if err1 != nil || err2 != nil || v1 != v2 || !bytes.Equal(h1, h2) {
+			return fmt.Sprintf("big import: the continuation commit gives version %d hash %x (%v), the source tree %d %x (%v)", v2, h2, err2, v1, h1, err1)
+		}
 	}
 	return ""
 }
+
+// storeOfTree remembers the store behind the import target of bigImport.
+var storeOfTree = map[*iavl.MutableTree]*vstore.Store{}
 
 func init() {
 	specsFor["C10"] = c10Specs
@@ -429,7 +496,7 @@ func init() {
 		r.Assumptions = []string{
 			"totality alphabet: Height in {-1,0,1,2}, Version in {-1,0,1,2,3} (import version 2), Key in {nil,a,b}, Value in {nil,v}; all sequences of length <= 2 (quick: restricted symbols at length 3; thorough: all 1.7M), valid streams of 1..5 leaves under 1 (thorough: 2) edits, hostile delta-encoded keys for the compressed codec",
 			"Add errors are ignored by the hostile caller (the stream continues); the final call is Commit or Close",
-			"more than one import batch (10 000 nodes) is covered by one fixed 6 000-leaf tree (thorough tier), not exhaustively",
+			"more than one import batch (10 000 nodes) is covered by one fixed 6 000-leaf tree, not exhaustively",
 		}
 		if r.Found != nil {
 			return r
@@ -454,11 +521,11 @@ func init() {
 			rawViolation(c, r, text, f)
 			break
 		}
-		if c.Tier == "thorough" {
+		if len(r.Raw) == 0 {
 			if f := bigImport(); f != "" {
 				rawViolation(c, r, f, nil)
 			}
-			r.Extra["big_import"] = "6000-leaf tree (2 versions) exported and imported, plain and compressed"
+			r.Extra["big_import"] = "6000-leaf tree (2 versions, two importer batches) exported and imported, plain and compressed: hash, complete re-exported stream, iteration on a fresh instance, and the hash of one continuation commit are compared with the source tree"
 		}
 		return r
 	}
